@@ -85,16 +85,21 @@ def run_extractors(cfg):
     for ex in cfg.get("extract", []):
         out = os.path.join(LEAN, ex["out"])
         os.makedirs(os.path.dirname(out), exist_ok=True)
-        rc, o, dt = sh(["go", "run", "./" + ex["cmd"], REPO, *ex.get("args", [])],
-                       cwd=os.path.join(VERIF, "extract"), env=GOENV, timeout=900, stdout=subprocess.PIPE)
+        # stdout is the Lean file; diagnostics of the extractor go to stderr and must never end up in it
+        t0 = time.time()
+        p = subprocess.run(["go", "run", "./" + ex["cmd"], REPO, *ex.get("args", [])],
+                           cwd=os.path.join(VERIF, "extract"), env=GOENV, timeout=900,
+                           stdout=subprocess.PIPE, stderr=subprocess.PIPE, text=True)
+        rc, o, dt = p.returncode, (p.stdout or ""), time.time() - t0
         if rc != 0:
-            res.append((ex["cmd"], False, o[-2000:]))
+            res.append((ex["cmd"], False, ((p.stderr or "") + o)[-2000:]))
             continue
         old = open(out).read() if os.path.exists(out) else None
         if old != o:
             with open(out, "w") as f:
                 f.write(o)
-        res.append((ex["cmd"], True, f"{len(o)} bytes, {'changed' if old != o else 'unchanged'}, {dt:.1f}s"))
+        note = (" ; extractor notes: " + " | ".join((p.stderr or "").strip().splitlines()[:6])) if (p.stderr or "").strip() else ""
+        res.append((ex["cmd"], True, f"{len(o)} bytes, {'changed' if old != o else 'unchanged'}, {dt:.1f}s{note}"))
     return res
 
 
